@@ -22,6 +22,9 @@ structure RunSt where
   curs : Array (Dir × Cursor)
   spec0 : Spec.St
   specs : Array Spec.St
+  /-- state and direction when cursor 0 was created, and every event since (for `runHist`) -/
+  h0 : Option (LSet × Dir) := none
+  evs : Array Ev := #[]
 
 def optNatJ : Option Nat → Json
   | some v => toJson v
@@ -53,7 +56,10 @@ def snapJ (st : RunSt) (r : Json) (full : Bool) : Json :=
   obj (base ++ more)
 
 /-- apply a list-level edit to the model and the same abstract edit to every `Spec.St` -/
-def edit (st : RunSt) (f : LSet → LSet × Bool) (g : Spec.St → Spec.St × Bool) : RunSt × Json :=
+def edit (st : RunSt) (op : Op) : RunSt × Json :=
+  let f : LSet → LSet × Bool := fun s => apply s op
+  let g : Spec.St → Spec.St × Bool := fun sp => Spec.apply sp op
+  let st := { st with evs := st.evs.push (.op op) }
   let r := f st.s
   let r0 := g st.spec0
   let rj := if r0.2 == r.2 then Json.bool r.2 else Json.str "model/spec differ"
@@ -64,26 +70,29 @@ def stepOp (st : RunSt) (j : Json) : Except String (RunSt × Json) := do
   match o with
   | "append" =>
     let v ← getNat j "v"
-    return edit st (fun s => apply s (.append v)) (fun sp => Spec.apply sp (.append v))
+    return edit st (.append v)
   | "extend" =>
     let vs ← getNats j "vs"
-    return edit st (fun s => apply s (.extend vs)) (fun sp => Spec.apply sp (.extend vs))
+    return edit st (.extend vs)
   | "ia" =>
     let a ← getNat j "a"
     let vs ← getNats j "vs"
-    return edit st (fun s => apply s (.insertAfter a vs)) (fun sp => Spec.apply sp (.insertAfter a vs))
+    return edit st (.insertAfter a vs)
   | "ib" =>
     let a ← getNat j "a"
     let vs ← getNats j "vs"
-    return edit st (fun s => apply s (.insertBefore a vs)) (fun sp => Spec.apply sp (.insertBefore a vs))
+    return edit st (.insertBefore a vs)
   | "rm" =>
     let v ← getNat j "v"
-    return edit st (fun s => apply s (.remove v)) (fun sp => Spec.apply sp (.remove v))
+    return edit st (.remove v)
   | "iter" =>
     let d ← getStr j "d"
     let dir := if d == "r" then Dir.rev else Dir.fwd
     let sp : Spec.St := { L := st.spec0.L, d := dir, c := Spec.start st.spec0.L dir }
-    return ({ st with curs := st.curs.push (dir, .notStarted), specs := st.specs.push sp },
+    let h0 := if st.curs.size = 0 then some (st.s, dir) else st.h0
+    let evs := if st.curs.size = 0 then #[] else st.evs
+    return ({ st with curs := st.curs.push (dir, .notStarted), specs := st.specs.push sp,
+                      h0 := h0, evs := evs },
       toJson (st.curs.size))
   | "next" =>
     let k ← getNat j "k"
@@ -97,7 +106,8 @@ def stepOp (st : RunSt) (j : Json) : Except String (RunSt × Json) := do
         | _, _ => false
       let rj := if agree then resJ r.2 else Json.str s!"model/spec differ"
       return ({ st with curs := st.curs.setIfInBounds k (d, r.1),
-                        specs := st.specs.setIfInBounds k sr.1 }, rj)
+                        specs := st.specs.setIfInBounds k sr.1,
+                        evs := if k = 0 then st.evs.push .next else st.evs }, rj)
     | _, _ => throw "bad cursor"
   | "get" =>
     let i ← getInt j "i"
@@ -119,7 +129,15 @@ def run (j : Json) : Except String Json := do
     let (st', r) ← stepOp st o
     st := st'
     out := out.push (snapJ st r full)
-  return obj [("steps", Json.arr out)]
+  let hist := match st.h0 with
+    | some (s0, d) =>
+      let r := runHist d s0 .notStarted st.evs.toList
+      -- the statement of C11_untouched_exactly_once_in_order, evaluated
+      let T := touchedAll st.evs.toList
+      let okU := untouched T (r.2.2 ++ rest r.1 d r.2.1) == untouched T (rest s0 d .notStarted)
+      obj [("y", natsJ r.2.2), ("T", natsJ T), ("ok", Json.bool okU)]
+    | none => Json.null
+  return obj [("steps", Json.arr out), ("hist0", hist)]
 
 def handle : Handler := fun m j =>
   match m with
